@@ -8,13 +8,13 @@ CONSTANTS
   Hosts = {"h0", ""}
   Lens = {0, 1, 2, 3}
   ReadMax = {1, 2, 8}
-  MaxOpens = 2
+  MaxOpens = 1
   MaxBytes = 8
   MaxDgrams = 2
-  Depth = 40
-  EmitEvery = 40
-  Faults = {}
+  Depth = 60
+  EmitEvery = 20
+  Faults = {"cutsrc"}
   WithBind = FALSE
-  WithBridge = FALSE
+  WithBridge = TRUE
 INVARIANTS Emit NoViolation
 CHECK_DEADLOCK FALSE
